@@ -23,3 +23,6 @@ MUTANTS = [
     dict(name="mocks-without-schema-registry", file="emitters/mocks_emitter.py", expect="R13.1",
          old="EndpointVisitor(context.parsed_schemas or {})", new="EndpointVisitor()"),
 ]
+MUTANTS.append(dict(name="signature-writer-wraps-return-annotation", file="core/writers/code_writer.py", expect="R13.6",
+    old='            if return_type:\n                self.write_line(f") -> {return_type}:")\n',
+    new='            if return_type:\n                outer, bracket, inner = return_type.partition("[")\n                if bracket and len(return_type) > 90:\n                    self.write_line(f") -> {outer}[")\n                    self.write_line(inner[:-1])\n                    self.write_line("]:")\n                else:\n                    self.write_line(f") -> {return_type}:")\n'))
